@@ -404,46 +404,7 @@ func (w *world) step() {
 		if a == b {
 			return
 		}
-		var m *sam.Header
-		var links [][]*sam.Reference
-		var err error
-		res := safely(func() { m, links, err = sam.MergeHeaders([]*sam.Header{w.hs[a-1], w.hs[b-1]}) })
-		ev := tr.M{"a": a, "b": b, "kind": "hdr", "res": errRes(res, err)}
-		// an optional-field conflict between references of the same name and length justifies an error
-		oc := false
-		for _, x := range w.hs[a-1].Refs() {
-			for _, y := range w.hs[b-1].Refs() {
-				if x.Name() == y.Name() && x.Len() == y.Len() {
-					if (len(x.MD5()) != 0 && len(y.MD5()) != 0 && !bytes.Equal(x.MD5(), y.MD5())) ||
-						(x.AssemblyID() != "" && y.AssemblyID() != "" && x.AssemblyID() != y.AssemblyID()) ||
-						(x.Species() != "" && y.Species() != "" && x.Species() != y.Species()) ||
-						(x.URI() != "" && y.URI() != "" && x.URI() != y.URI()) ||
-						x.Get(sam.NewTag("XY")) != y.Get(sam.NewTag("XY")) {
-						oc = true
-					}
-				}
-			}
-		}
-		ev["optconflict"] = oc
-		touched := []int{}
-		if res == "nil" && err == nil && m != nil {
-			w.hs = append(w.hs, m)
-			var lj [][]int
-			for _, l := range links {
-				row := []int{}
-				for _, x := range l {
-					if x == nil {
-						row = append(row, 0)
-					} else {
-						row = append(row, w.rid(x))
-					}
-				}
-				lj = append(lj, row)
-			}
-			ev["links"] = lj
-			touched = []int{len(w.hs)}
-		}
-		w.emit("merge", ev, touched...)
+		w.merge(a, b)
 	default: // parse an additional header line
 		name := names[r.Intn(len(names))]
 		var line string
@@ -484,6 +445,61 @@ func (w *world) step() {
 	}
 }
 
+// merge runs MergeHeaders on headers a and b (1-based) and records the outcome with the links
+func (w *world) merge(a, b int) {
+	var m *sam.Header
+	var links [][]*sam.Reference
+	var err error
+	res := safely(func() { m, links, err = sam.MergeHeaders([]*sam.Header{w.hs[a-1], w.hs[b-1]}) })
+	ev := tr.M{"a": a, "b": b, "kind": "hdr", "res": errRes(res, err)}
+	// an optional-field conflict between references of the same name and length justifies an error
+	oc := false
+	for _, x := range w.hs[a-1].Refs() {
+		for _, y := range w.hs[b-1].Refs() {
+			if x.Name() == y.Name() && x.Len() == y.Len() {
+				if (len(x.MD5()) != 0 && len(y.MD5()) != 0 && !bytes.Equal(x.MD5(), y.MD5())) ||
+					(x.AssemblyID() != "" && y.AssemblyID() != "" && x.AssemblyID() != y.AssemblyID()) ||
+					(x.Species() != "" && y.Species() != "" && x.Species() != y.Species()) ||
+					(x.URI() != "" && y.URI() != "" && x.URI() != y.URI()) ||
+					x.Get(sam.NewTag("XY")) != y.Get(sam.NewTag("XY")) {
+					oc = true
+				}
+			}
+		}
+	}
+	ev["optconflict"] = oc
+	touched := []int{}
+	if res == "nil" && err == nil && m != nil {
+		w.hs = append(w.hs, m)
+		var lj [][]int
+		for _, l := range links {
+			row := []int{}
+			for _, x := range l {
+				if x == nil {
+					row = append(row, 0)
+				} else {
+					row = append(row, w.rid(x))
+				}
+			}
+			lj = append(lj, row)
+		}
+		ev["links"] = lj
+		touched = []int{len(w.hs)}
+	}
+	w.emit("merge", ev, touched...)
+}
+
+// newHeaderOf creates a header from the given references and records it
+func (w *world) newHeaderOf(initial []*sam.Reference) {
+	h, err := sam.NewHeader(nil, initial)
+	w.hs = append(w.hs, h)
+	init := [][]interface{}{}
+	for _, x := range initial {
+		init = append(init, []interface{}{w.rid(x), x.Name(), x.Len()})
+	}
+	w.emit("newheader", tr.M{"res": errRes("nil", err), "kind": "hdr", "init": init}, len(w.hs))
+}
+
 func Run(out string) {
 	t := tr.Create(out)
 	defer t.Close()
@@ -491,6 +507,33 @@ func Run(out string) {
 	n, ln := 300, 25
 	if tr.Tier() == "thorough" {
 		n, ln = 20000, 40
+	}
+	// directed merges: a later source adds a reference (the merged list grows) before / after it
+	// describes a reference of the first source differently (that one is replaced); in both orders,
+	// with the replaced reference first, in the middle and last in the first source
+	for _, pat := range [][2][]string{
+		{{"x+"}, {"chr1", "x"}}, {{"x+"}, {"x", "chr1"}}, {{"x+", "chr2"}, {"chr1", "chr2", "x"}}, {{"chr2", "x+"}, {"chrM", "x", "chr1"}},
+		{{"chr2", "x+", "chr1"}, {"chrM", "x"}}, {{"x+", "chr1+"}, {"chr2", "chr1", "chrM", "x"}},
+	} {
+		for _, d := range []int{4, 5, 3} {
+			w := &world{t: t, r: r, refID: map[*sam.Reference]int{}, rgID: map[*sam.ReadGroup]int{}, pgID: map[*sam.Program]int{}}
+			t.Begin("header/merge-directed", tr.M{})
+			for _, names := range pat {
+				var initial []*sam.Reference
+				for _, nm := range names {
+					det := 0
+					if nm[len(nm)-1] == '+' {
+						nm, det = nm[:len(nm)-1], d
+					}
+					initial = append(initial, w.newRef(nm, 1000, det))
+				}
+				w.newHeaderOf(initial)
+			}
+			w.merge(1, 2)
+			if !w.dead && len(w.hs) >= 3 {
+				w.merge(3, 2) // and the merged header with the second source again
+			}
+		}
 	}
 	for i := 0; i < n; i++ {
 		w := &world{t: t, r: r, refID: map[*sam.Reference]int{}, rgID: map[*sam.ReadGroup]int{}, pgID: map[*sam.Program]int{}}
